@@ -148,25 +148,28 @@ type stOp struct {
 }
 
 func randOp(rng *vh.Rng, tag func() string) stOp {
-	op := stOp{kind: rng.Intn(3), byType: rng.Bool()}
+	op := stOp{kind: rng.Intn(4), byType: rng.Bool()}
+	if op.kind == 3 { // DeleteIf exists for message IDs only
+		op.byType = false
+	}
 	if op.byType {
 		op.key = int(stTypes[rng.Intn(len(stTypes))])
 	} else {
 		op.key = int(stIDs[rng.Intn(len(stIDs))])
 	}
-	if op.kind == 0 {
+	if op.kind == 0 || op.kind == 3 {
 		op.tag = tag()
 	}
 	return op
 }
 
 func (op stOp) String() string {
-	s := []string{"S", "G", "D"}[op.kind]
+	s := []string{"S", "G", "D", "I"}[op.kind]
 	if op.byType {
 		s += "T"
 	}
 	s += strconv.Itoa(op.key)
-	if op.kind == 0 {
+	if op.kind == 0 || op.kind == 3 {
 		s += "=" + op.tag
 	}
 	return s
@@ -186,6 +189,8 @@ func (op stOp) apply(ts *transactions.TransactionStore) string {
 		t, ok = ts.GetByType(ty)
 	case op.kind == 1:
 		t, ok = ts.Get(id)
+	case op.kind == 3:
+		ts.DeleteIf(id, txn{op.tag})
 	case op.byType:
 		ts.DeleteByType(ty)
 	default:
@@ -231,6 +236,11 @@ var stModel = porcupine.Model{
 			return output == "-", in.tag
 		case 1:
 			return output == state, state
+		case 3:
+			if state == in.tag {
+				return output == "-", "-"
+			}
+			return output == "-", state
 		default:
 			return output == "-", "-"
 		}
